@@ -230,6 +230,10 @@ func genC16r(tier string, r *rng) {
 					continue
 				}
 				emitReaderCases(st, enc[:cut], []int{0, 1, 5}[(cut+i)%3], fin, i, nm+1, "utf8,inter", r)
+				// the same cut seen by a reader with no OnIntermediate handler, and with handlers that do not read the
+				// control payload (NextFrame drains it itself)
+				cfg2 := []string{"utf8", "utf8,interlazy", "utf8,interone"}[(cut+fi)%3]
+				run(fmt.Sprintf("rdr %d %s %s %d %s %s", st, cfg2, hx(enc[:cut]), []int{0, 1, 5}[(cut+i+1)%3], fin, scriptFor(nm+1, r)))
 			}
 		}
 	}
